@@ -495,7 +495,6 @@ Definition conv_spec (version : Z) (r : kv) : result kv cerr :=
   table_convert (if version =? 1 then spec_v1_table else spec_v2_table) r.
 
 (** ** RoboFab lib data (format 1 only) *)
-Inductive hty := HNum | HBool | HNums | HNumss.
 Inductive hval := HVNum (x : f64) | HVBool (b : bool) | HVNums (l : list f64)
                 | HVNumss (l : list (list f64)).
 
@@ -620,9 +619,9 @@ Definition apply_hints (h : list (string * hval)) (i : kv) : kv :=
 (** the same, driven by the specification's table *)
 Definition hint_value (h : list (string * hval)) (hk : string) (s : hshape) : option val :=
   match s, get h hk with
-  | HAssign, Some (HVNum x) => Some (VNum x)
-  | HAssign, Some (HVBool b) => Some (VBool b)
-  | HAssign, Some (HVNums l) => Some (VNums l)
+  | HAssign HNum, Some (HVNum x) => Some (VNum x)
+  | HAssign HBool, Some (HVBool b) => Some (VBool b)
+  | HAssign HNums, Some (HVNums l) => Some (VNums l)
   | HFlatten, Some (HVNumss l) => Some (VNums (List.concat l))
   | _, _ => None
   end.
@@ -630,7 +629,7 @@ Definition apply_hint_table (t : list (string * string * hshape)) (h : list (str
   (i : kv) : kv :=
   fold_left (fun i '(k, hk, s) =>
                match s with
-               | HAssign => assign k (hint_value h hk s) i
+               | HAssign _ => assign k (hint_value h hk s) i
                | HFlatten => assign_some k (hint_value h hk s) i
                end) t i.
 
